@@ -265,7 +265,12 @@ fn explore_base(ctx: &Ctx, acc: &mut Acc, lines: &[Vec<&str>], k: usize, label: 
     let _ = local;
 }
 
-const REPLACEMENTS: [&str; 8] = ["?", "1.2.3", "-5", "abc", "2024-13-01", "2024-02-30", "BUYY", "ZZZ"];
+// garbage, and every token class of the grammar in the wrong place (each command and clause keyword in two cases, the
+// price sign, currency codes, a number, a date): a keyword swapped for another keyword must not be silently accepted
+const REPLACEMENTS: [&str; 31] = [
+    "?", "1.2.3", "-5", "abc", "2024-13-01", "2024-02-30", "BUYY", "ZZZ", "BUY", "SELL", "DIVIDEND", "CAPRETURN", "ACCUMULATION", "SPLIT", "UNSPLIT", "FEES", "TAX", "TOTAL", "RATIO", "fees", "tax",
+    "Total", "ratio", "sell", "@", "GBP", "USD", "eur", "7", "0.5", "2024-03-01",
+];
 
 fn corruptions(ctx: &Ctx, acc: &mut Acc, lines: &[Vec<&str>], which: usize, seps: &[&str], label: &str) {
     // corrupt one token of line `which`
@@ -531,7 +536,7 @@ pub fn c13(tier: Tier) -> i32 {
         ctx.require(acc.get(k) > 0, &format!("no text exhibited {k}"));
     }
     ctx.bound = json!({"one_line_bases": bases.len(), "max_deviations_one_line": k1, "three_line_files": tri.len(), "max_deviations_three_line": k3});
-    ctx.alphabets.push(json!({"name": "lexical deviations", "bases": bases, "deviation_menu": "gap in {two spaces, tab, space-tab-space} at every token gap; lower/mixed case of every keyword, currency code and ticker; line end in {spaces, tab, ' # c', '#c', ' # BUY X 1 @ 1', ' #'}; separator after each line in {LF, CRLF, CR}; final newline absent; blank / whitespace-only / comment line inserted at every line boundary", "corruptions": "delete / duplicate / swap-with-neighbour / replace by {?, 1.2.3, -5, abc, 2024-13-01, 2024-02-30, BUYY, ZZZ} / '#' inserted before, for every token, with LF, CRLF and CR separators, after each of 6 prologues (nothing, one or two blank lines, a whitespace-only line, a comment line, both)"}));
+    ctx.alphabets.push(json!({"name": "lexical deviations", "bases": bases, "deviation_menu": "gap in {two spaces, tab, space-tab-space} at every token gap; lower/mixed case of every keyword, currency code and ticker; line end in {spaces, tab, ' # c', '#c', ' # BUY X 1 @ 1', ' #'}; separator after each line in {LF, CRLF, CR}; final newline absent; blank / whitespace-only / comment line inserted at every line boundary", "corruptions": "delete / duplicate / swap-with-neighbour / replace by {?, 1.2.3, -5, abc, 2024-13-01, 2024-02-30, BUYY, ZZZ, every command and clause keyword (upper and other case), @, GBP, USD, eur, 7, 0.5, a valid date} / '#' inserted before, for every token, with LF, CRLF and CR separators, after each of 6 prologues (nothing, one or two blank lines, a whitespace-only line, a comment line, both)"}));
     ctx.explanation = "States are DSL texts. From each canonical text every set of at most k deviations at distinct sites is applied (deviation-bounded exhaustive search, like a preemption bound) and the real parse_file must return exactly the canonical transaction list (computed by an independent whitespace-tokenising recogniser of the README grammar: omitted currency = GBP, omitted FEES/TAX = 0). Every single-token corruption of every token is classified by the recogniser: valid ones must parse to the recogniser's value, invalid ones must be rejected with an error reporting the corrupted line, never fewer transactions than lines. Front-ends: `cgt-tool parse` on deviated files and on every cut of the 3-line files into 2-3 input files with six endings of the non-last files (same output as the single file; an invalid line in the last file fails the run); MCP parse_transactions / calculate_report on corrupted texts after six prologues, LF and CRLF (refused, offending line identified as sent).".into();
     ctx.assumptions = vec!["leading indentation, form feeds and non-breaking spaces are outside the statement".into()];
     ctx.finish(&acc, "model_checking")
